@@ -480,6 +480,26 @@ func fromJSONValue(d *m.Design, a *m.Attr, x any) (value.V, error) {
 			out.A = append(out.A, Canonicalize(d, res.Type.Key, kv), ev)
 		}
 		return out, nil
+	case k == m.Union:
+		// unions travel as {"Type": "<alternative>", "Value": "<JSON text of the value>"}
+		mm, ok := x.(map[string]any)
+		if !ok {
+			return value.Nil(), fmt.Errorf("want union object, have %T", x)
+		}
+		tn, ok1 := mm["Type"].(string)
+		vs, ok2 := mm["Value"].(string)
+		if !ok1 || !ok2 || len(mm) != 2 {
+			return value.Nil(), fmt.Errorf("union on the wire must be {Type: string, Value: string}, have %v", mm)
+		}
+		alt := UnionAlt(res.Type, tn)
+		if alt == nil || alt.Name != tn {
+			return value.Nil(), fmt.Errorf("union Type %q is not an alternative of the design", tn)
+		}
+		inner, err := FromJSON(d, alt.Attr, []byte(vs))
+		if err != nil {
+			return value.Nil(), fmt.Errorf("union Value of alternative %q: %v", tn, err)
+		}
+		return value.V{K: "union", S: alt.Name, A: []value.V{inner}}, nil
 	case k == m.Object:
 		mm, ok := x.(map[string]any)
 		if !ok {
